@@ -604,7 +604,14 @@ def rule_detect(ctx):
             okx = bool(calls_named(rv, STRICT_EXTERNAL[c.name].split(".")[-1]))
             ctx.check("C19.detect", okx, wc, "%s tried before %s" % (c.name, later), "the parser no longer goes through %s" % STRICT_EXTERNAL[c.name], "strict external parser")
             continue
-        # key=value style: per-line loop; `parts = <line>.split('=', 1)`; every path of the body for a significant line reads parts[1]
+        # key=value style, decided by execution: the parser run on documents of the formats tried after it (as their own
+        # transform() writes them, a base64 value ending in '=' included) must raise; on its own documents it returns them
+        ex = strict_parser_exec(repo, c, [x for x in order[i + 1:]])
+        if ex is not None:
+            ctx.check("C19.detect", not ex, wc, "%s tried before %s" % (c.name, later),
+                      "; ".join(ex[:2]) + " - an extension-less file in that format is detected as the wrong type", "documents of the later formats are rejected, its own are read back (executed)")
+            continue
+        # fallback, the reading of the shape: per-line loop; `parts = <line>.split('=', 1)`; every path of the body for a significant line reads parts[1]
         g = _CFG(rv)
         splits = [n for n in g.live if n.kind == "stmt" and isinstance(n.stmt, ast.Assign) and isinstance(n.stmt.targets[0], ast.Name)
                   and any(isinstance(x, ast.Call) and isinstance(x.func, ast.Attribute) and x.func.attr in ("split", "partition") and x.args and isinstance(x.args[0], ast.Constant) and x.args[0].value == "=" for x in ast.walk(n.stmt.value))]
@@ -619,6 +626,62 @@ def rule_detect(ctx):
         ctx.check("C19.detect", escape is None, wc, "%s tried before %s" % (c.name, later),
                   "a line without '=' is accepted silently: a %s document (whose lines mostly have none, but whose base64 values end in '=') parses to a non-empty dict and an extension-less file in that format is detected as the wrong type" % "/".join(later),
                   "a significant line without '=' raises (every path reads the value half of the split)")
+
+
+def strict_parser_exec(repo, c, later):
+    """c().reverse(text) executed on constant documents: the text every later format's own transform() produces for a
+    small configuration (with a value that ends in '=', as base64 does) must make it raise; the text its own transform()
+    produces must come back as that configuration; comment and blank lines are skipped.
+    -> list of problems, or None when the executions cannot be followed"""
+    from ..absint import Interp, _Raise, NeedAtom, Budget, DomainGrew, C_NONE, show as _show
+    import json as _json
+    conf = {"cc": "49", "id": "QUJDRA==", "phone": "4915112345678"}
+
+    def ext(itp, recv, args, kwargs, env, depth, e):
+        if args and args[0][0] in ("dict", "c"):
+            d_ = {k_: (v_[1] if isinstance(v_, tuple) else v_) for k_, v_ in (args[0][1].items())} if args[0][0] == "dict" else args[0][1]
+            kw = {k_: v_[1] for k_, v_ in kwargs.items() if v_[0] == "c"}
+            if isinstance(kw.get("separators"), list):
+                kw["separators"] = tuple(kw["separators"])
+            try:
+                return ("c", _json.dumps(d_, **kw))
+            except TypeError:
+                return None
+        return None
+    it = Interp(repo, {}, {}, hooks={"ext:*.dumps": ext})
+    it.loop_unroll = 64
+    env = {"@module": c.module, "@owner": None}
+    problems = []
+    try:
+        me = it.construct(c, [], {}, env, 0, None)
+        docs = []
+        for other in later:
+            o = it.construct(other, [], {}, {"@module": other.module, "@owner": None}, 0, None)
+            t = it.force(it.method_call(o, "transform", [("dict", {k_: ("c", v_) for k_, v_ in conf.items()})], {}, {"@module": other.module, "@owner": other}, 0, None))
+            if t[0] != "c" or not isinstance(t[1], str):
+                return None
+            docs.append((other.name, t[1]))
+        for name, text in docs:
+            try:
+                r = it.force(it.method_call(me, "reverse", [("c", text)], {}, {"@module": c.module, "@owner": c}, 0, None))
+                problems.append("a document written by %s is read without complaint as %s" % (name, _show(r)[:60]))
+            except _Raise:
+                pass
+        own = it.force(it.method_call(me, "transform", [("dict", {k_: ("c", v_) for k_, v_ in conf.items()})], {}, {"@module": c.module, "@owner": c}, 0, None))
+        if own[0] != "c" or not isinstance(own[1], str):
+            return None
+        for label, text in (("its own document", own[1]), ("its own document with comment and blank lines", "# saved by yowsup\n\n" + own[1] + "\n; end\n")):
+            try:
+                r = it.force(it.method_call(me, "reverse", [("c", text)], {}, {"@module": c.module, "@owner": c}, 0, None))
+            except _Raise as x:
+                problems.append("%s is rejected (%s)" % (label, (x.text or "")[:40]))
+                continue
+            got = {k_: (v_[1] if isinstance(v_, tuple) and v_[0] == "c" else None) for k_, v_ in r[1].items()} if r[0] == "dict" else None
+            if got != conf:
+                problems.append("%s comes back as %s" % (label, _show(r)[:60]))
+    except (NeedAtom, Budget, DomainGrew, _Raise):
+        return None
+    return problems
 
 
 def open_calls(fn):
